@@ -49,6 +49,7 @@ type feature struct {
 	Body   string // statements of the target function (4-space indented lines)
 	Edits  []edit
 	Post   string // module-level code placed after the target() call
+	Solo   bool   // many edits: composed alone (and in pairs only in the thorough tier)
 	Own    bool   // the feature defines the target itself (Pre must define and register //:t)
 }
 
@@ -114,6 +115,40 @@ func features() []feature {
 		{Name: "helper-kwonly-optional", Pre: "def ho(a, *, c=1):\n    return a + c\n", Body: "    x_ho = ho(1)\n", Edits: []edit{{"change optional keyword-only default", "*, c=1", "*, c=2"}}},
 		{Name: "struct-attr-chain", Pre: "def mk2():\n    return {\"f\": lambda v: v + 1}\nST = mk2()\n", Body: "    x_st = ST[\"f\"](1)\n", Edits: []edit{{"change lambda stored in a dict", "v + 1", "v + 2"}}},
 	}
+}
+
+// more than 256 objects that are encoded by reference, and an alias that is re-pointed from
+// one to another: references are written with 1-byte ids below 256 and 4-byte ids from 256
+// on, and two different objects must never be written as the same reference. Which object
+// gets which id depends on the order of declaration and of use, so several are enumerated.
+// aliasFeatures: which object gets which reference id depends on the order of declaration and of
+// use and on where the alias is assigned, so all of these are enumerated. The alias is assigned
+// below the target's registration, so that re-pointing it changes nothing else in the module.
+func aliasFeatures() []feature {
+	var out []feature
+	for di, decls := range []string{"BASE = [\"base\"]\nPARTS = [[i] for i in range(300)]\n", "PARTS = [[str(i)] for i in range(300)]\nBASE = [\"base\"]\n"} {
+		for _, from := range []string{"BASE", "PARTS", "PARTS[0]"} {
+			for bi, body := range []string{"(PICK, PARTS, BASE)", "(BASE, PARTS, PICK)", "(PARTS, PICK, BASE)"} {
+				out = append(out, aliasFeature(fmt.Sprintf("d%d-%s-b%d", di, from, bi), decls, from, body))
+			}
+		}
+	}
+	return out
+}
+
+func aliasFeature(name, decls, from, body string) feature {
+	f := feature{Name: "alias-among-300-objects-" + name, Solo: true,
+		Pre:  decls,
+		Post: "PICK = " + from + "\n",
+		Body: "    x_pick = " + body + "\n"}
+	for k := 0; k < 300; k++ {
+		to := fmt.Sprintf("PARTS[%d]", k)
+		if to == from {
+			continue
+		}
+		f.Edits = append(f.Edits, edit{fmt.Sprintf("re-point the alias from %s to object %d", from, k), "PICK = " + from + "\n", "PICK = " + to + "\n"})
+	}
+	return f
 }
 
 type program struct {
@@ -351,7 +386,8 @@ func main() {
 	}
 	r := vlib.Start(*fAs)
 	reasonsOnly := *fAs == "C16"
-	fs := features()
+	staleOnly := *fAs == "C01" // only "an edit of a referenced value leaves the target up to date" (C01's currency clause)
+	fs := append(features(), aliasFeatures()...)
 	var progs []program
 	for _, f := range fs {
 		progs = append(progs, compose(f))
@@ -361,6 +397,9 @@ func main() {
 		for j := i + 1; j < len(fs); j++ {
 			if fs[i].Lib != "" && fs[j].Lib != "" {
 				continue // both define lib.dawn
+			}
+			if (fs[i].Solo || fs[j].Solo) && !r.Thorough() {
+				continue
 			}
 			cyc := strings.Contains(fs[i].Name, "cyclic") || strings.Contains(fs[j].Name, "cyclic")
 			if !r.Thorough() && (i*7+j)%2 != 0 && !cyc {
@@ -382,6 +421,9 @@ func main() {
 		p := progs[i]
 		root := filepath.Join(r.Scratch, "proj")
 		viol := func(sig, what, ed string) {
+			if staleOnly && sig != "edit-not-detected" && sig != "edit-not-rebuilt" {
+				return
+			}
 			if reasonsOnly && !strings.HasPrefix(sig, "reason-") {
 				return
 			}
